@@ -134,12 +134,12 @@ PROPS = {
     },
     "C17": {
         "controls": ["ERR-1"],
-        "rules": [("ERR-1", err.err1), ("ERR-2", err.err2), ("ERR-3", err.err3)],
+        "rules": [("ERR-1", err.err1), ("ERR-2", err.err2), ("ERR-3", err.err3), ("ERR-4", err.err4)],
         "explanation": "Decides the dispatch, payload and index-provenance clauses of C17: no call of an ASCAError formatter resolves to an impl whose "
                        "body is a bare unreachable!() (lib and CLI dispatchers cover all six Error variants); every variant of the six error enums carries a "
                        "location payload; the (group,line)/(kind,line) values handed to the lexers and parsers are the enumerate indices of exactly the slices "
                        "the formatters later index (rules[group].rule[line], into[line]/from[line]); every Position/Token/raw (group,line,pos) error is built from "
-                       "self.group/self.line/self.kind in the slot the formatter reads under that name.",
+                       "self.group/self.line/self.kind in the slot the formatter reads under that name; a parsed item's span end is read from the last consumed token (token_list[self.pos - 1]), never from the look-ahead token (ERR-4).",
         "does_not_decide": "that the caret span lies inside the line (unsigned `end - start`, `pos2 - pos1 - 1`, token-index vs column mixing are arithmetic on run-time positions).",
         "assumptions": ["formatters keep binding the raw payload fields under the names group/line/kind"],
     },
